@@ -161,6 +161,20 @@ def main(argv=None) -> int:
         print(f'VIOLATION property={pid} replay={os.path.abspath(a.replay)}')
         return 1
 
+    selftest_report = None
+    if getattr(mod, 'USES_SIM', False):
+        # fidelity self-test of the simulated primitives (DESIGN.md 4.5): a failure is a harness error, never a violation
+        try:
+            from vf.sim import selftest
+            selftest_report = selftest.ensure(real=True)
+        except Inconclusive as e:
+            print(f'HARNESS-ERROR property={pid} {e}', flush=True)
+            return 2
+        except Exception:
+            traceback.print_exc()
+            print(f'HARNESS-ERROR property={pid} simulation self-test crashed', flush=True)
+            return 2
+
     failures, errors, inconclusive = [], [], []
     merged = Stats()
     nt: set = set()
@@ -241,6 +255,9 @@ def main(argv=None) -> int:
     }
     if merged.notes:
         ev['coverage']['notes'] = merged.notes[:20]
+    if selftest_report is not None:
+        ev['coverage']['sim_selftest'] = {'programs': len(selftest_report), 'schedules_enumerated': sum(e['schedules'] for e in selftest_report),
+                                          'all_outcome_sets_equal_cpython_semantics': True, 'real_thread_outcomes_within_simulated': True}
     if errors or inconclusive:
         ev['coverage']['harness_errors'] = len(errors)
         ev['coverage']['inconclusive'] = [r['inconclusive'] for r in inconclusive][:5]
